@@ -174,6 +174,11 @@ pub fn attr_menu() -> Vec<(&'static str, &'static str, Vec<Part>)> {
         ("attr-x-sq", "x", t("it's")),
         ("attr-x-dq", "x", t("say \"hi\"")),
         ("attr-x-gt", "x", t("a>b")),
+        // quote characters in one text piece, a reference, then a text piece without them (and the
+        // other way round): the delimiter must be chosen for the value as a whole
+        ("attr-x-dq-ref-plain", "x", vec![Part::Text("\"x\"".into()), Part::EntRef("amp".into()), Part::Text("y".into())]),
+        ("attr-x-plain-ref-dq", "x", vec![Part::Text("y".into()), Part::CharRef('B'), Part::Text("\"x\"".into())]),
+        ("attr-x-sq-ref-plain", "x", vec![Part::Text("it's".into()), Part::EntRef("lt".into()), Part::Text("z".into())]),
         ("attr-z", "z", t("é")),
         ("attr-x-charref-cr", "x", vec![Part::CharRef('\r')]),
         ("nsdecl-default", "xmlns", t("u1")),
